@@ -152,9 +152,13 @@ class ContractDB:
         deco = [ast.unparse(d) for d in node.decorator_list]
         spec = dict(params=params, defaults=defaults, types=c.get('types', {}), requires=c.get('requires', ()),
                     ensures=c.get('ensures', ()), modifies=c.get('modifies', ()), returns=c.get('returns'),
-                    raises=c.get('raises'))
+                    raises=c.get('raises'), allocates=c.get('allocates'))
         if 'staticmethod' in deco:
             spec['static'] = True
+        elif 'classmethod' in deco:
+            spec['classmethod'] = True
+        elif params and params[0] == 'self':
+            spec['self'] = True
         return spec
 
     def method_spec(self, cls, name, engine):
